@@ -7,10 +7,11 @@
     command, words = the written texts, no pipe / background / redirection /
     assignment), and list splitting ([C01_split]: quoted, escaped and
     backquoted atoms never split a line).
-    NOT proved: the backslash-escaped style through the tokenizer. For that
-    style the full statement is false of the code -- [C01_esc_refuted] gives the
-    witnesses (classes esc-expanded, esc-amp-last of known_findings.txt) -- and
-    outside those classes it is carried by the correspondence check only.
+    The backslash-escaped style: [C01_tokenize_escaped] proves the tokenizer
+    step for one escaped argument of any text; for the passes AFTER the
+    tokenizer the full statement is false of the code -- [C01_esc_refuted] gives
+    the witnesses (classes esc-expanded, esc-amp-last of known_findings.txt) --
+    and outside those classes it is carried by the correspondence check only.
     [C01_plan_full] is the whole of CommandLine::from_line (tokenizer, the
     real expansion passes of Model/Expand.v, planner) on the property's quoted
     domain: single-quoted texts, and double-quoted texts free of dollar and
@@ -19,7 +20,7 @@
 From Cicada Require Import Base.Chars Base.Tag Model.Tokenizer Model.Redirect Model.Cmds
   Proofs.TokenizerProofs Proofs.RedirectProofs Proofs.ListExecProofs Proofs.CmdsProofs.
 From Cicada Require Import Model.Expand Model.FullPlan Proofs.C13Proofs Proofs.C01Full.
-From Cicada Require Proofs.ExpandInert.
+From Cicada Require Proofs.ExpandInert Proofs.TokenizerEscProofs.
 
 Theorem C01_tokenize : forall cmd (args : list (nat * qarg)),
   plain_word cmd = true -> forallb arith_body cmd = false ->
@@ -50,6 +51,32 @@ Theorem C01_post_passes : forall cmd l,
   cmd_ok cmd = true -> forallb quoted_tok l = true ->
   plan_tokens ((TNone, cmd) :: l) = inl (mkcl [mkc ((TNone, cmd) :: l) [] None] [] false).
 Proof. exact plan_quoted. Qed.
+
+(** The backslash-escaped style through the tokenizer, one argument: every
+    character of the property's special set (all shell metacharacters, space,
+    tab) is preceded by a backslash, anything else is written as it is; the
+    word is read back as exactly its text, for EVERY non-empty text. (The token
+    tag depends on the text: backslash-tag when it starts with an escaped bar
+    or dollar, single-quote tag when it holds an escaped angle bracket, none
+    otherwise -- [C01_esc_refuted] shows what later passes do with the untagged
+    ones.) *)
+Definition c01_special (c : char) : bool :=
+  existsb (fun k => N.eqb c k)
+    [124; 38; 59; 60; 62; 40; 41; 36; 96; 92; 34; 39; 42; 63; 91; 93; 123; 125; 44; 126; 35; 33; 61; 37; 94; 32; 9]%N.
+
+Lemma c01_special_covers : forall c, c01_special c = false -> classify c = KOther.
+Proof.
+  intros c H. unfold classify.
+  repeat match goal with
+  | |- context [N.eqb c ?k] => destruct (N.eqb_spec c k) as [->|_]; [cbv in H; discriminate|]
+  end. reflexivity.
+Qed.
+
+Theorem C01_tokenize_escaped : forall cmd name n,
+  plain_word cmd = true -> forallb arith_body cmd = false -> name <> [] ->
+  parse_line (cmd ++ c_space :: TokenizerEscProofs.escape_text c01_special name ++ spaces n)
+  = [(TNone, cmd); (TokenizerEscProofs.text_tag c01_special name, name)].
+Proof. exact (TokenizerEscProofs.parse_line_escaped c01_special c01_special_covers). Qed.
 
 (** a line made of plain, quoted, escaped and backquoted atoms is ONE list segment *)
 Theorem C01_split : forall ws0 seg ws_end,
@@ -89,6 +116,7 @@ Proof. vm_compute. repeat split. Qed.
 
 Print Assumptions C01_tokenize.
 Print Assumptions C01_plan_quoted.
+Print Assumptions C01_tokenize_escaped.
 Print Assumptions C01_plan_full.
 Print Assumptions C01_post_passes.
 Print Assumptions C01_split.
